@@ -227,6 +227,12 @@ class SymNP:
         return self._filled(shape, 0, dtype)
 
     def full(self, shape, fill_value, dtype=None, **kw):
+        if dtype is None and not is_symbolic(fill_value):
+            # numpy takes the dtype of the fill value: an integer id stays an integer column
+            if isinstance(fill_value, (bool, _np.bool_)):
+                dtype = _np.bool_
+            elif isinstance(fill_value, (int, _np.integer)):
+                dtype = _np.int64
         return self._filled(shape, fill_value, dtype)
 
     def zeros_like(self, a, dtype=None, **kw):
@@ -447,12 +453,12 @@ class SymNP:
 
     def all(self, a, axis=None, **kw):
         if A.any_symbolic(a) or (isinstance(a, _np.ndarray) and a.dtype == object):
-            return A.sym_reduce(A._logical_and, A.to_symarray(a), axis)
+            return A._row_mask(A.sym_reduce(A._logical_and, A.to_symarray(a), axis), a, axis)
         return _np.all(a, axis=axis, **kw)
 
     def any(self, a, axis=None, **kw):
         if A.any_symbolic(a) or (isinstance(a, _np.ndarray) and a.dtype == object):
-            return A.sym_reduce(A._logical_or, A.to_symarray(a), axis)
+            return A._row_mask(A.sym_reduce(A._logical_or, A.to_symarray(a), axis), a, axis)
         return _np.any(a, axis=axis, **kw)
 
     def where(self, c, a=None, b=None):
